@@ -43,15 +43,17 @@ class RuleAutomaton:
             return "module list given before modules_that() / an import type"
         return None
 
-    def feed(self, name):
+    def feed(self, name, args=None):
         self.history.append(name)
         if name == "modules_that":
             self.slot = "subject"
         elif name in RULE_FILTERS:
+            # an empty batch names no module: the side stays (or becomes) unspecified - the last specification counts
+            given = not (args and isinstance(args[0], list) and len(args[0]) == 0)
             if self.slot == "subject":
-                self.subject = True
+                self.subject = given
             elif self.slot == "object":
-                self.object = True
+                self.object = given
         elif name in RULE_VERBS:
             self.verbs.add(name)
         elif name in RULE_IMPORT:
